@@ -139,6 +139,42 @@ Definition adapt_class (regs : list sroute) (dflt : option Z) (mws : list (Z * b
   | _ => dispatch_class regs dflt mws path trace params
   end.
 
+(* A request whose RouteParams object was used before (a recycled *mux.Message,
+   a router nested in a handler of another router).  What the caller left in the
+   object is the caller's business; the property speaks about the handler that
+   runs and about "the route variables" -- the variables of the pattern the
+   request was dispatched on.  So: the handler that ran decides whether a route
+   was selected (it is the handler of the registered route named by
+   PathTemplate), the Vars map is cut down to the variable names of that
+   pattern, and then the predicate is [dispatch_class] for the path the message
+   has NOW; when no route handler ran, the request must be one that no
+   registered pattern matches and the default handler must have run.  When a
+   middleware answers itself no handler runs and only the trace is judged
+   (nothing at all runs when no default handler is set and nothing matches). *)
+Definition restrict_vars (names : list str) (vars : list (str * str)) : list (str * str) :=
+  filter (fun kv => existsb (str_eqb (fst kv)) names) vars.
+
+Definition reuse_class (regs : list sroute) (dflt : option Z) (mws : list (Z * bool))
+           (path : str) (trace : list ev) (params : option (str * str * list (str * str))) : N :=
+  if negb (snd (passing_prefix mws)) then
+    (if list_eqb ev_eqb trace (spec_trace mws None) then 0%N
+     else match dflt with
+          | None =>   (* no default handler set and nothing matches: nothing to wrap, nothing runs *)
+              if is_nil trace && is_nil (filter (fun r => spec_matches (s_parts r) path) regs) then 0%N else 7%N
+          | Some _ => 7%N
+          end)
+  else
+    let routed :=
+      match params, handlers_of trace with
+      | Some (p, tmpl, vars), [h] =>
+          match filter (fun r => str_eqb (s_pat r) tmpl && (s_h r =? h)) regs with
+          | r :: _ => Some (p, tmpl, restrict_vars (var_names (s_parts r)) vars)
+          | [] => None
+          end
+      | _, _ => None
+      end in
+    dispatch_class regs dflt mws path trace routed.
+
 (* "registering or removing routes concurrently with dispatch is free of data
    races": the route table is guarded by the router's lock, so (11) every time
    the longest-match scan looks at a route the lock is held (by the scanning
